@@ -12,6 +12,8 @@ import (
 	"math/rand"
 	"os"
 	"path/filepath"
+	"reflect"
+	"runtime/debug"
 	"sort"
 	"strconv"
 	"strings"
@@ -273,6 +275,9 @@ func catch(f func()) (panicked bool, val any) {
 		if r := recover(); r != nil {
 			panicked = true
 			val = r
+			if os.Getenv("VERIF_DEBUG") != "" {
+				fmt.Fprintf(os.Stderr, "panic: %v\n%s\n", r, debug.Stack())
+			}
 		}
 	}()
 	f()
@@ -289,4 +294,13 @@ func splitList(s string) []string {
 		}
 	}
 	return out
+}
+
+func reflectIsNil(v any) bool {
+	rv := reflect.ValueOf(v)
+	switch rv.Kind() {
+	case reflect.Ptr, reflect.Map, reflect.Slice, reflect.Interface:
+		return rv.IsNil()
+	}
+	return false
 }
